@@ -15,11 +15,16 @@ func TestC09(t *testing.T) {
 	runProp(t, "C09", func(e *env) {
 		r := e.r
 		n := int64(0)
-		one := func(kind string, in []byte, k byte, failAt int, offSel, errKind int64, nested bool, bits uint64) error {
+		one := func(kind string, in []byte, k byte, failAt int, offSel, errKind int64, nested bool, bits uint64, pres ...int64) error {
 			n++
 			cfg := n % 3
-			reached, nt, err := c09Check(in, k, failAt, offSel, errKind, nested, bits, bufferConfig(cfg%2))
-			key := core.HashInts(core.Hash(in), int64(k), int64(failAt), offSel, errKind, b2i(nested), int64(bits))
+			pre := int64(0)
+			if len(pres) > 0 {
+				pre = pres[0]
+				cfg = 1 // bufferConfig(1) is a Buffer: the handler's work shares it with the traversal
+			}
+			reached, nt, err := c09Check(in, k, failAt, offSel, errKind, nested, bits, bufferConfig(cfg%2), pre)
+			key := core.HashInts(core.Hash(in), int64(k), int64(failAt), offSel, errKind, b2i(nested), int64(bits), pre)
 			r.Eval(key, nt && reached)
 			if reached {
 				r.Label("failing-call-reached")
@@ -34,7 +39,7 @@ func TestC09(t *testing.T) {
 			}
 			if err != nil {
 				return &caseErr{&core.Case{Prop: "C09", Kind: kind, In: append([]byte(nil), in...),
-					Ints: []int64{int64(k), int64(failAt), offSel, errKind, b2i(nested), int64(bits), cfg % 2}}, err}
+					Ints: []int64{int64(k), int64(failAt), offSel, errKind, b2i(nested), int64(bits), cfg % 2, pre}}, err}
 			}
 			return nil
 		}
@@ -172,6 +177,41 @@ func TestC09(t *testing.T) {
 								if err := core.Catch(func() error { return one("long-container", in, kind, failAt, off, ek, nested, ^uint64(0)) }); err != nil {
 									r.Fail(caseOf("C09", "long-container", in, err), err)
 									break long
+								}
+							}
+						}
+					}
+				}
+			}
+		}
+		// 4. work, then fail: the failing call first does successful work on its member with the
+		// traversal's own Buffer (walks it with a nested traversal, skips it, validates it) and only
+		// then returns its error - a handler that decodes a member and rejects what it found
+		if e.enumStage("work-then-fail", "20 well-formed container documents x failing position 0..4 x 6 kinds of successful work on the member before failing (nested declining traversal, SkipValue, SkipValueFast, Valid, nested skipping traversal, ReadValue; same Buffer) x 28 hostile offsets x 3 error kinds", true) {
+			docs := []string{`[1,2,3]`, `["a","b","c"]`, `[[1],[2],[3]]`, `[{"a":1},{"b":2}]`, `[null,true,"x",1.5,[],{}]`, `[1,"a",[2],{"b":3},null]`,
+				`{"a":1,"b":2,"c":3}`, `{"a":"x","b":"y"}`, `{"a":[1],"b":[2]}`, `{"a":{"x":1},"b":{"y":2}}`, `{"a":null,"b":true,"c":"s","d":1e5,"e":[],"f":{}}`,
+				` [ 1 , "a" , [ 2 ] ] `, ` { "a" : 1 , "b" : [ 2 ] } `, `[[["deep"]],2]`, `{"k":{"k":{"k":1}},"z":0}`, `[[[1,[2]],[[3]]],[[4,5],[6]],7]`, `{"a":[[1,2],[3,[4]]],"b":[[5]],"c":0}`,
+				`[{"a":{"b":[1,{"c":2}]}},{"d":[[]]},3]`, `[[],[[]],[[],[]]]`, `{"x":{},"y":{"z":{}},"w":[{}]}`}
+			idx := 0
+		wtf:
+			for _, d := range docs {
+				in := []byte(d)
+				for failAt := 0; failAt < 5; failAt++ {
+					for pre := int64(1); pre <= 6; pre++ {
+						idx++
+						if !e.cfg.Mine(idx) {
+							continue
+						}
+						for off := int64(0); off < hostilePoolSize; off++ {
+							for _, ek := range []int64{0, 9, 15} {
+								k := byte('[')
+								if in[ref.SkipWS(in, 0)] == '{' {
+									k = '{'
+								}
+								r.Begin("work-then-fail", in)
+								if err := core.Catch(func() error { return one("work-then-fail", in, k, failAt, off, ek, false, uint64(off*7+ek), pre) }); err != nil {
+									r.Fail(caseOf("C09", "work-then-fail", in, err), err)
+									break wtf
 								}
 							}
 						}
